@@ -1,12 +1,14 @@
 SPECIFICATION Spec
 CONSTANTS
   Depth = 3
-  DeepIds = {2, 3}
-  BaseIds = {2, 3}
+  DeepIds = {1, 2, 3, 4}
+  BaseIds = {1, 2, 3, 4}
   KindIds = {1, 2, 3}
   FinalKindIds = {}
+  SampleMod = 23
+  SampleRes = 0
   QuorumLowerBound = TRUE
-  EmitScenarios = FALSE
-INVARIANTS CodeSound
+  EmitScenarios = TRUE
+INVARIANTS CodeSound Emit
 VIEW View
 CHECK_DEADLOCK FALSE
